@@ -70,9 +70,6 @@ class Check(RecordingCheck):
                             {"kind": "idem", "scenario": label, "plan": plan, "R": R, "lost": lost}))
         return n
 
-    def _is_last(self, tree, k, ref, world):
-        return True
-
     # ------------------------------------------------------------------ oracle (b): end to end
     def oracle_e2e(self, work):
         n = 0
@@ -85,6 +82,15 @@ class Check(RecordingCheck):
             idx = [i for i, _, site in log]
             rcn = [i for i, _, site in log if "record_call_node" in site]
             chosen = sorted(set(idx[::stride]) | set(rcn))
+            # the history without any fault: what it already gets wrong is not charged to a fault position
+            base = self.e2e(name, [], work, f"e{n}")
+            n += 1
+            for which, exp in (("same", "expected_same"), ("edited", "expected_edited")):
+                if base[which] != base[exp]:
+                    self.findings.append(Finding(
+                        f"stale-result:no-fault:{name}", f"workload {name} without any fault: the re-run ({'edited leaf' if which == 'edited' else 'same program'}) "
+                        f"gives {base[which]!r}, a run on an empty backend {base[exp]!r} (C03: CSE-replayed child)",
+                        {"kind": "e2e", "workload": name, "plan": []}))
             for i in chosen:
                 for fate in (FFAIL, FCRASH):
                     o = self.e2e(name, [FOK] * i + [fate], work, f"e{n}")
@@ -103,7 +109,7 @@ class Check(RecordingCheck):
                             f"run-dies-on-transient-error@{site}", f"one transient OperationalError at commit {i} ({site}) of workload "
                             f"{name} is not survived although db_retries=3: the run dies with {o['run1'][1]}", replay))
                     for which, exp in (("same", "expected_same"), ("edited", "expected_edited")):
-                        if o[which] != o[exp]:
+                        if o[which] != o[exp] and o[which] != base[which]:
                             sym = "recovery-run-dies" if o[which][0] == "died" else "stale-result"
                             self.findings.append(Finding(
                                 f"{sym}:{kind}@{site}", f"after a {kind} at commit {i} ({site}) of workload {name}, the recovery run "
@@ -134,8 +140,10 @@ class Check(RecordingCheck):
         self.ob("oracle", f"implementation oracle: {n1} retried operations (faulted vs fault-free tables), {n2} fault positions of "
                           f"real workflows followed by recovery runs with and without an edit",
                 not unknown, "; ".join(f"{f.key}: {f.what}" for f in unknown[:5]))
-        if self.variant == "fixed" and self.findings:
-            self.ob("oracle", "repaired configuration: no witness reproduces", False, "; ".join(f.key for f in self.findings[:5]))
+        repaired = [f for f in self.findings if "record_call_node" in f.key or f.key.startswith("retry-loses")]
+        if self.variant == "fixed" and repaired:
+            self.ob("oracle", "repaired configuration: no record_call_node witness reproduces", False,
+                    "; ".join(f.key for f in repaired[:5]))
 
     def replay(self, doc):
         r = doc.get("replay", {})
